@@ -139,6 +139,8 @@ class ComponentLevel2( ComponentLevel1 ):
         if current_idx == "*": # special case, materialize all objects
           if isinstance( obj, NamedObject ): # Signal[*] is the signal itself
             objs.add( obj )
+            if isinstance( obj, Signal ): # ... but only a part of it is accessed
+              part_objs.add( obj )
           else:
             for i, child in enumerate( obj ):
               expand_array_index( child, name_depth, node_depth, idx_depth+1, idx )
@@ -220,6 +222,7 @@ class ComponentLevel2( ComponentLevel1 ):
       for obj_name, nodelist, op in names:
         if obj_name[0][0] == "s":
           objs = set()
+          part_objs = set()
           lookup_variable( s, 1, 1 )
 
           if not is_write or not objs:
@@ -259,7 +262,9 @@ class ComponentLevel2( ComponentLevel1 ):
 
 
             for x in objs:
-              if not x.is_top_level_signal():
+              # s.r[ s.sel ] <<= ... assigns to a temporary part select: the
+              # register would silently keep its value
+              if not x.is_top_level_signal() or x in part_objs:
                 raise UpdateFFNonTopLevelSignalError( s, func, nodelist[0].lineno )
 
               x._dsl.needs_double_buffer = True
